@@ -567,6 +567,27 @@ theorem never_wrong_body_block2_composed_partial (P : B2Par) (hP : B2ParOK P) (e
       (∀ p, o ≠ CrcvOut.plain p) :=
   (b2Run_inv P hP evs {} (b2_init_inv P)).outs
 
+/-- The hypothesis `B2ParOK` holds for what the C computes: with `cfg` = `rspCfg` (the arguments
+coap_add_data_large_response → coap_write_block_b_opt → coap_add_data_large_internal hand to `adlBody` for a GET carrying
+Block2; `addDataLargeRsp` = `adlBody` on `rspCfg` is tied to the real function by the T2 op `xmit2` over PDU sizes
+20..1500), any PDU size below 2^62, a body below 2^32 bytes and ETags that differ between lg_xmits. -/
+theorem response_path_params_ok (maxSize tokLen optBytes lastOpt maxBlk etagLen : Nat) (body : Bytes)
+    (etagOf : Nat → Bytes) (fmt room : Nat) (single : Bool) (cap : Nat) (junk : UInt8)
+    (hms : maxSize < 2 ^ 62) (hlen : body.length < 2 ^ 32) (hinj : ∀ k1 k2, etagOf k1 = etagOf k2 → k1 = k2) :
+    B2ParOK { body := body, cfg := rspCfg maxSize tokLen optBytes lastOpt maxBlk body.length etagLen, etagOf := etagOf,
+              fmt := fmt, room := room, single := single, cap := cap, junk := junk } :=
+  { len := hlen
+    ms := fun szx c hc => (rspCfg_ok maxSize tokLen optBytes lastOpt maxBlk body.length etagLen hms szx c hc).1
+    tok := fun szx c hc => (rspCfg_ok maxSize tokLen optBytes lastOpt maxBlk body.length etagLen hms szx c hc).2.1
+    b2 := fun szx c hc => (rspCfg_ok maxSize tokLen optBytes lastOpt maxBlk body.length etagLen hms szx c hc).2.2.1
+    b26 := fun szx c hc => (rspCfg_ok maxSize tokLen optBytes lastOpt maxBlk body.length etagLen hms szx c hc).2.2.2
+    inj := hinj }
+
+set_option maxRecDepth 100000 in
+/-- non-vacuity: a 96-byte response PDU makes the server itself reduce 1024-byte blocks to 32 bytes -/
+example : (rspCfg 96 4 2 12 0 1000 1 6).map (fun c => (c.b2, c.blk, c.tokOpts0)) = some (1, some 2, 8) ∧
+    (addDataLargeRsp 96 4 2 12 6 0 1000 1).map (fun r => (r.lgXmit, r.blkSize, r.payload)) = some (true, 1, 32) := by decide
+
 /-- a concrete system for the examples: 40-byte body, the server settles on 16-byte blocks -/
 def exPar (single : Bool) : B2Par :=
   { body := (List.range 40).map (fun i => UInt8.ofNat i),
